@@ -8,6 +8,7 @@
 
 #define CAP (2u << 20)
 static u8 *g_src, *g_dst, *g_out, *g_scratch;
+static u8 g_dict[512];
 static const char* g_mode; static const char* g_set; static int g_big, g_conf, g_K;
 
 /* base shapes: K segments each, chosen so that the default run already has literals, a match, a repcode and a block edge */
@@ -28,9 +29,10 @@ static void body(void) {
     char sdesc[160] = "", pdesc[256];
     size_t n = 0;
     /* ---- entry point and parameter vector ---- */
-    int entry = vx_choose(5);    /* 0 compress2, 1 compress_advanced, 2 ZSTD_compress, 3 compressCCtx, 4 compress_usingDict(NULL) */
+    int isBlocks = !strcmp(g_set, "blocks");
+    int entry = vx_choose(isBlocks ? 8 : 5);    /* 0 compress2, 1 compress_advanced, 2 ZSTD_compress, 3 compressCCtx, 4 compress_usingDict(NULL); blocks family also: 5 compress_usingCDict, 6 refCDict + compress2, 7 loadDictionary + compress2 (512-byte raw-content dictionary) */
     pvec_t p;
-    if (entry == 0) p = pvec_choose(1);
+    if (entry == 0 || entry >= 6) p = pvec_choose(1);
     else if (entry == 1) {
         p = pvec_base(vx_choose(9) + 1);
         { static const int wl[] = {0, 11, 17}; int d = vx_deviate(3); if (d) p.windowLog = wl[d]; }
@@ -41,7 +43,7 @@ static void body(void) {
     } else { p = pvec_base(0); p.strategy = 0; p.windowLog = 0; p.level = PV_LEVELS[vx_choose((int)(sizeof PV_LEVELS / sizeof PV_LEVELS[0]))]; }
     if (g_big && p.windowLog && p.windowLog < 17) p.windowLog = 17;
     size_t W = pvec_window(&p); if (!W) W = g_conf ? 1024 : (g_big ? (1u << 17) : 1024);
-    if (g_conf && p.strategy == 0 && entry == 0) { p.windowLog = 10; W = 1024; }
+    if (g_conf && p.strategy == 0 && (entry == 0 || entry >= 6)) { p.windowLog = 10; W = 1024; }
     size_t B = pvec_block(&p); if (B > W) B = W;
     /* ---- input ---- */
     if (!strcmp(g_set, "shapes")) {
@@ -70,6 +72,34 @@ static void body(void) {
         }
         n = pos; snprintf(sdesc, sizeof sdesc, "longlen %s=%zu edge%d many%d twice%d", isLit ? "lit" : "match", len, edge, many, twice);
         if (entry == 0) { p.splitter = 1 + vx_choose(2); if (p.windowLog && p.windowLog < 19) p.windowLog = 19; }
+    } else if (isBlocks) {
+        /* block-type sequences: each of the first 2-3 blocks of the frame has its own character, so that every decision the
+         * compressor takes per block (raw / RLE / compressed, new / repeated / no Huffman table, FSE table modes) meets every
+         * predecessor.  Block size = the configuration's (1 KiB with the small windows; 128 KiB for the level-only entries,
+         * which are run at three levels).  Types: 0 skewed bytes over [0,200)+{201}; 1 the same with 200 in place of 201;
+         * 2 skewed over [0,199); 3 uniform noise; 4 run of 'z'; 5 run of 0x00; 6 words; 7 skewed over [0,12). */
+        size_t blk = (entry >= 2 && entry <= 5) ? 128 * 1024 : B;
+        if (entry >= 2 && entry <= 5 && !(p.level == 1 || p.level == 3 || p.level == 7)) { vx_obs_u64(53); return; }
+        int nb = 2 + vx_choose(2), ty[3]; for (int i = 0; i < nb; i++) ty[i] = vx_choose(8);
+        static const int D0[] = {0, -1, 1}; int d0 = D0[vx_deviate(3)]; int tailKind = vx_deviate(3);   /* first block exactly / one short / one over; last block full, half, 300 bytes */
+        size_t pos = 0; uint32_t sd = 77;
+        for (int i = 0; i < nb; i++) {
+            size_t len = blk; if (i == 0) len = (size_t)((long)blk + d0); if (i == nb - 1 && tailKind) len = tailKind == 1 ? blk / 2 + 17 : 300;
+            u8* q = g_src + pos;
+            for (size_t k = 0; k < len; k++) { sd = sd * 1103515245u + 12345u; unsigned r = (sd >> 8) & 0xffff, v = r % 200; v = v * v / 200 * v / 200;
+                switch (ty[i]) {
+                case 0: q[k] = (u8)((r >> 9) % 61 == 0 ? 201 : v); break;
+                case 1: q[k] = (u8)((r >> 9) % 61 == 0 ? 200 : v); break;
+                case 2: q[k] = (u8)(v > 198 ? 198 : v); break;
+                case 3: q[k] = (u8)(r >> 3); break;
+                case 4: q[k] = 'z'; break;
+                case 5: q[k] = 0; break;
+                case 6: q[k] = (u8)("the block of words and the words of the block "[(k + (r & 3) * (k % 7 == 0)) % 47]); break;
+                default: q[k] = (u8)(v % 12); break;
+                } }
+            pos += len;
+        }
+        n = pos; snprintf(sdesc, sizeof sdesc, "blocks %d%d%c first%+d tail%d blk=%zu", ty[0], ty[1], nb == 3 ? '0' + ty[2] : '-', d0, tailKind, blk);
     } else if (!strcmp(g_set, "lens")) {
         /* every input length 0..L in three textures (checksum / content-size bookkeeping is per length, not per content) */
         int L = (int)vx_opt_int("--L", 200); int len = vx_choose(L + 1), tex = vx_choose(3);
@@ -92,7 +122,7 @@ static void body(void) {
     vx_label("entry=%d %s | %s n=%zu", entry, pdesc, sdesc, n);
 
     /* ---- compress ---- */
-    size_t bound = ZSTD_compressBound(n), csz;
+    size_t bound = ZSTD_compressBound(n), csz; const u8* dict = NULL; size_t dictLen = 0;
     ZSTD_CCtx* cctx = ZSTD_createCCtx();
     if (entry == 0) {
         size_t e = pvec_apply(cctx, &p);
@@ -107,7 +137,19 @@ static void body(void) {
         csz = ZSTD_compress_advanced(cctx, g_dst, bound, g_src, n, NULL, 0, zp);
     } else if (entry == 2) csz = ZSTD_compress(g_dst, bound, g_src, n, p.level);
     else if (entry == 3) csz = ZSTD_compressCCtx(cctx, g_dst, bound, g_src, n, p.level);
-    else csz = ZSTD_compress_usingDict(cctx, g_dst, bound, g_src, n, NULL, 0, p.level);
+    else if (entry == 4) csz = ZSTD_compress_usingDict(cctx, g_dst, bound, g_src, n, NULL, 0, p.level);
+    else {
+        fill_text(g_dict, sizeof g_dict, 21); dict = g_dict; dictLen = sizeof g_dict;
+        ZSTD_CDict* cd = NULL;
+        if (entry == 5) { cd = ZSTD_createCDict(g_dict, sizeof g_dict, p.level); csz = ZSTD_compress_usingCDict(cctx, g_dst, bound, g_src, n, cd); }
+        else {
+            size_t e = pvec_apply(cctx, &p);
+            if (ZSTD_isError(e)) { vx_fail("setParameter rejected a vector of in-range values: %s", ZSTD_getErrorName(e)); ZSTD_freeCCtx(cctx); return; }
+            if (entry == 6) { cd = ZSTD_createCDict(g_dict, sizeof g_dict, p.strategy ? 3 : p.level); e = ZSTD_CCtx_refCDict(cctx, cd); } else e = ZSTD_CCtx_loadDictionary(cctx, g_dict, sizeof g_dict);
+            csz = ZSTD_isError(e) ? e : ZSTD_compress2(cctx, g_dst, bound, g_src, n);
+        }
+        ZSTD_freeCDict(cd);
+    }
     ZSTD_freeCCtx(cctx);
     if (ZSTD_isError(csz)) { vx_fail("compression into ZSTD_compressBound failed: %s", ZSTD_getErrorName(csz)); return; }
 
@@ -118,7 +160,8 @@ static void body(void) {
         for (int v = 0; v < 4; v++) {
             size_t cap = n + ((v & 1) ? 0 : 32);           /* exact and roomy destination */
             size_t r;
-            if (!p.magicless && (v & 2)) r = ZSTD_decompress(g_out, cap, g_dst, csz); else r = ZSTD_decompressDCtx(d, g_out, cap, g_dst, csz);
+            if (dict) r = ZSTD_decompress_usingDict(d, g_out, cap, g_dst, csz, dict, dictLen);
+            else if (!p.magicless && (v & 2)) r = ZSTD_decompress(g_out, cap, g_dst, csz); else r = ZSTD_decompressDCtx(d, g_out, cap, g_dst, csz);
             if (ZSTD_isError(r)) { vx_fail("decompress of own output failed: %s", ZSTD_getErrorName(r)); break; }
             if (r != n) { vx_fail("round trip length %zu != %zu", r, n); break; }
             if (n && memcmp(g_out, g_src, n)) { vx_fail("round trip content differs"); break; }
@@ -129,11 +172,11 @@ static void body(void) {
         if (csz < n) vx_nontrivial();
     } else {
         refcheck_t c; rc_init(&c);
-        c.interop = 1; c.magicless = p.magicless; c.maxBlockSize = (entry == 0) ? (size_t)p.maxBlockSize : 0;
-        if (entry <= 1) { c.expectChecksum = p.checksum; c.expectFCS = p.contentSize; } else { c.expectChecksum = 0; c.expectFCS = 1; }
+        c.interop = 1; c.magicless = p.magicless; c.maxBlockSize = (entry == 0 || entry >= 6) ? (size_t)p.maxBlockSize : 0;
+        if (entry <= 1 || entry >= 6) { c.expectChecksum = p.checksum; c.expectFCS = p.contentSize; } else { c.expectChecksum = 0; c.expectFCS = 1; }
         c.expectDictID = 0;
-        if (ref_check(&c, g_dst, csz, NULL, 0, g_src, n, g_scratch, CAP)) { vx_fail("conformance: %s", c.err); return; }
-        if (entry <= 1 && p.windowLog && c.windowSize > ((size_t)1 << p.windowLog)) { vx_fail("conformance: declared window %zu larger than requested 2^%d", c.windowSize, p.windowLog); return; }
+        if (ref_check(&c, g_dst, csz, dict, dictLen, g_src, n, g_scratch, CAP)) { vx_fail("conformance: %s", c.err); return; }
+        if ((entry <= 1 || entry >= 6) && p.windowLog && c.windowSize > ((size_t)1 << p.windowLog)) { vx_fail("conformance: declared window %zu larger than requested 2^%d", c.windowSize, p.windowLog); return; }
         vx_obs_u64(vx_hash(g_dst, csz));
         vx_stat_add("sequences", (long)c.nseq); vx_stat_add("blocks", (long)c.nblocks); vx_stat_max("max_offset", (long)c.maxOffset);
         if (c.maxOffset + 8 >= c.windowSize && n > c.windowSize) vx_stat_add("frames_with_offset_near_window", 1);
